@@ -136,35 +136,56 @@ def build(desc):
     kind: 'span' (flat style span carrying the layout), 'plain' (text without own layout), 'bare' (TEXT node with its own layout, no span)"""
     from pycaption import Caption, CaptionList, CaptionNode, CaptionSet
 
-    cl = CaptionList(layout_info=mk_layout(desc.get("lang")))
-    t = 1000000
-    for c in desc["captions"]:
-        nodes = []
-        for i, (text, spec, kind) in enumerate(c["parts"]):
-            if i:
-                nodes.append(CaptionNode.create_break())
-            if kind == "span":
-                L = mk_layout(spec)
-                nodes += [CaptionNode.create_style(True, {"italics": True}, layout_info=L), CaptionNode.create_text(text, layout_info=L), CaptionNode.create_style(False, {"italics": True}, layout_info=L)]
-            elif kind == "bare":
-                nodes.append(CaptionNode.create_text(text, layout_info=mk_layout(spec)))
-            else:
-                nodes.append(CaptionNode.create_text(text))
-        cl.append(Caption(t, t + 1000000, nodes, layout_info=mk_layout(c.get("layout"))))
-        t += 2000000
-    return CaptionSet({"en-US": cl})
+    cache = {}
+
+    def mk(spec):
+        # desc["share"]: equal layouts of one set are one Layout object (what user code that positions several
+        # captions alike naturally does)
+        if not desc.get("share"):
+            return mk_layout(spec)
+        if spec not in cache:
+            cache[spec] = mk_layout(spec)
+        return cache[spec]
+
+    def one_language(d):
+        cl = CaptionList(layout_info=mk(d.get("lang")))
+        t = 1000000
+        for c in d["captions"]:
+            nodes = []
+            for i, (text, spec, kind) in enumerate(c["parts"]):
+                if i:
+                    nodes.append(CaptionNode.create_break())
+                if kind == "span":
+                    L = mk(spec)
+                    nodes += [CaptionNode.create_style(True, {"italics": True}, layout_info=L), CaptionNode.create_text(text, layout_info=L), CaptionNode.create_style(False, {"italics": True}, layout_info=L)]
+                elif kind == "ispan":
+                    # an italic span that has no layout of its own inside a positioned caption
+                    nodes += [CaptionNode.create_style(True, {"italics": True}), CaptionNode.create_text(text), CaptionNode.create_style(False, {"italics": True})]
+                elif kind == "bare":
+                    nodes.append(CaptionNode.create_text(text, layout_info=mk(spec)))
+                else:
+                    nodes.append(CaptionNode.create_text(text))
+            cl.append(Caption(t, t + 1000000, nodes, layout_info=mk(c.get("layout"))))
+            t += 2000000
+        return cl
+
+    langs = {"en-US": one_language(desc)}
+    if desc.get("second"):
+        langs["fr-FR"] = one_language(desc["second"])
+    return CaptionSet(langs)
 
 
 def expected_effective(desc):
     out = {}
-    for c in desc["captions"]:
-        for text, spec, kind in c["parts"]:
-            eff = spec if (spec is not None and kind in ("span", "bare")) else None
-            if eff is None:
-                eff = c.get("layout")
-            if eff is None:
-                eff = desc.get("lang")
-            out[text] = eff
+    for d in [desc] + ([desc["second"]] if desc.get("second") else []):
+        for c in d["captions"]:
+            for text, spec, kind in c["parts"]:
+                eff = spec if (spec is not None and kind in ("span", "bare")) else None
+                if eff is None:
+                    eff = c.get("layout")
+                if eff is None:
+                    eff = d.get("lang")
+                out[text] = eff
     return out
 
 
@@ -186,15 +207,18 @@ def eval_dfxp(desc, fit, relativize=True):
         return [(f"C12/dfxp/{klass}/raises:{type(e).__name__}", {"err": str(e)[:300]})], "raises"
     exp = expected_effective(desc)
     got = {}
-    lang_l = cs.get_layout_info("en-US")
-    caps = cs.get_captions("en-US")
-    if len(caps) != len(desc["captions"]):
-        return [(f"C12/dfxp/{klass}/caption-count", {"got": len(caps)})], "count"
-    for c in caps:
-        for n in c.nodes:
-            if n.type_ == 1:
-                eff = n.layout_info or c.layout_info or lang_l
-                got[n.content.strip()] = norm_real(eff)
+    for code, d in [("en-US", desc)] + ([("fr-FR", desc["second"])] if desc.get("second") else []):
+        if code not in cs.get_languages():
+            return [(f"C12/dfxp/{klass}/language-lost", {"got": cs.get_languages()})], "count"
+        lang_l = cs.get_layout_info(code)
+        caps = cs.get_captions(code)
+        if len(caps) != len(d["captions"]):
+            return [(f"C12/dfxp/{klass}/caption-count", {"got": len(caps)})], "count"
+        for c in caps:
+            for n in c.nodes:
+                if n.type_ == 1:
+                    eff = n.layout_info or c.layout_info or lang_l
+                    got[n.content.strip()] = norm_real(eff)
     bare = any(k == "bare" for c in desc["captions"] for _, _, k in c["parts"])
     for text, spec in exp.items():
         if text not in got:
@@ -411,7 +435,7 @@ def dfxp_doc_variants():
 
 def single_level_desc(spec, level):
     if level == "lang":
-        return {"lang": spec, "captions": [{"layout": None, "parts": [("t0", None, "plain")]}], "klass": "lang-level"}
+        return {"lang": spec, "captions": [{"layout": None, "parts": [("t0", None, "plain")]}, {"layout": None, "parts": [("t1", None, "plain")]}, {"layout": None, "parts": [("t2", None, "plain")]}], "klass": "lang-level"}
     if level == "caption":
         return {"lang": None, "captions": [{"layout": spec, "parts": [("t0", None, "plain")]}], "klass": "caption-level"}
     return {"lang": None, "captions": [{"layout": None, "parts": [("t0", spec, "span"), ("t1", None, "plain")]}], "klass": "span-level"}
@@ -477,6 +501,21 @@ def run_shard(d):
                 run(eval_dfxp, {"lang": None, "captions": [{"layout": a, "parts": [("t0", b, "span"), ("t1", None, "plain")]}], "klass": "caption+span"}, fit)
         for a, b, c in itertools.permutations(REDUCED[:6], 3):
             run(eval_dfxp, {"lang": a, "captions": [{"layout": b, "parts": [("t0", c, "span"), ("t1", None, "plain")]}], "klass": "three-levels"}, False)
+        # a styled span without a layout of its own takes the nearest enclosing layout (caption, then language)
+        for a, b in itertools.product([None] + REDUCED, REDUCED):
+            if a == b:
+                continue
+            for fit in (False, True):
+                run(eval_dfxp, {"lang": a, "captions": [{"layout": b, "parts": [("t0", None, "ispan"), ("t1", None, "plain")]}, {"layout": None, "parts": [("t2", None, "ispan")]}], "klass": "unpositioned-span-in-positioned-caption"}, fit)
+        # two languages, each with layouts of its own at language / caption / span level
+        for a, b in itertools.permutations(REDUCED, 2):
+            for lvl in ("lang", "caption", "span"):
+                en = single_level_desc(a, lvl)
+                fr = single_level_desc(b, lvl)
+                fr["captions"] = [{"layout": c["layout"], "parts": [("u" + t[1:], sp, k_) for t, sp, k_ in c["parts"]]} for c in fr["captions"]]
+                run(eval_dfxp, dict(en, second=fr, klass="two-languages-" + lvl), False)
+                if a[0] and b[0] and lvl != "span":
+                    run(eval_dfxp, dict(en, second=fr, klass="two-languages-" + lvl), True)
         # the same level combinations written to WebVTT (effective layout: node -> caption -> language)
         wo = [s for s in REDUCED if s[0]]
         for a, b in itertools.permutations(wo, 2):
@@ -508,6 +547,11 @@ def run_shard(d):
             for kind in ("span", "bare"):
                 for fit in (False, True):
                     run(eval_vtt, {"lang": None, "captions": [{"layout": None, "parts": [("t0", a, kind), ("t1", b, kind)]}, {"layout": a, "parts": [("t2", None, "plain")]}], "klass": "vtt-two-nodes-" + kind}, fit)
+        # one Layout object positions several captions (equal layouts of a set share the object)
+        for a in withorigin:
+            for fit in (False, True):
+                run(eval_vtt, {"lang": None, "share": True, "captions": [{"layout": a, "parts": [("t0", None, "plain")]}, {"layout": a, "parts": [("t1", None, "plain")]}, {"layout": None, "parts": [("t2", a, "span")]}], "klass": "vtt-shared-layout-object"}, fit)
+                run(eval_dfxp, {"lang": None, "share": True, "captions": [{"layout": a, "parts": [("t0", None, "plain")]}, {"layout": a, "parts": [("t1", None, "plain")]}, {"layout": None, "parts": [("t2", a, "span")]}], "klass": "shared-layout-object"}, fit)
         for n in (1, 2, 3):
             for combo in itertools.product(RAW_SETTINGS + [""], repeat=n):
                 v, out = eval_verbatim(combo)
@@ -540,9 +584,15 @@ def replay(case):
         v, _ = eval_verbatim(tuple(case["settings"]))
         return [{"sig": s, "detail": d} for s, d in v]
     desc = case["desc"]
-    d2 = {"lang": _t(desc.get("lang")), "klass": desc.get("klass"), "captions": []}
-    for c in desc["captions"]:
-        d2["captions"].append({"layout": _t(c.get("layout")), "parts": [(p[0], _t(p[1]), p[2]) for p in c["parts"]]})
+    def fix(dd):
+        d3 = {"lang": _t(dd.get("lang")), "klass": dd.get("klass"), "captions": [], "share": dd.get("share")}
+        for c in dd["captions"]:
+            d3["captions"].append({"layout": _t(c.get("layout")), "parts": [(p[0], _t(p[1]), p[2]) for p in c["parts"]]})
+        if dd.get("second"):
+            d3["second"] = fix(dd["second"])
+        return d3
+
+    d2 = fix(desc)
     fn = eval_dfxp if case["fn"] == "eval_dfxp" else eval_vtt
     v, _ = fn(d2, case["fit"])
     return [{"sig": s, "detail": d} for s, d in v]
